@@ -123,6 +123,9 @@ def _link_body(fn, where):
         elif _is_raise_if(st, "not 0 <= index < len(%s.columns)" % obj, "OutOfBounds"):
             out.append(".checkBounds")
             i += 1
+        elif obj is not None and _is_raise_if(st, "%s._h5group.group.file != self._h5group.group.file" % obj, "ValueError"):
+            out.append(".checkSameFile")
+            i += 1
         elif _is_raise_if(st, "not self.has_link", "RuntimeError"):
             out.append(".requireLink")
             i += 1
